@@ -23,6 +23,8 @@
     closeStackBase
   compileFunctionBody: fresh CodeBuilder context,  `fn p` = compile p in [root 0], then `ret`, then the
     body.Return forced, then the pops (dead code)    pops
+  getTailCall: `return f()` is a tail call unless   `retCall p`: `tailcall` iff the top height is 0,
+    HasPendingCloseActions() (getHeight() > 0)        else `call` followed by `ret`
 
   The target code keeps the control structure (blocks, loops, structured exits) but all closing
   is explicit: `push`, `trunc h`, `ret`; a structured exit (`brk`, `jump k`) closes nothing itself.
@@ -45,6 +47,7 @@ inductive Code where
   | err (e : Nat)
   | pcall (c : Code)
   | call (c : Code)
+  | tailcall (c : Code)      -- Call with Tail=true through the continuation of the called function
   | yield
   deriving DecidableEq, Repr, Inhabited
 
@@ -146,6 +149,13 @@ def compile : Prog → Ctx → Option (Code × Ctx)
     | some h => some (.seq (emitTruncate h (topHeight ctx)) (.jump k), ctx)
   | .ret, ctx => some (.ret, ctx)
   | .err e, ctx => some (.err e, ctx)
+  | .retCall p, ctx =>
+    -- astcomp getTailCall: `return f()` is a tail call unless HasPendingCloseActions (getHeight() > 0);
+    -- otherwise it is compiled as an ordinary call followed by a return
+    match compile p [⟨.root, 0⟩] with
+    | none => none
+    | some (cp, ctx1) =>
+      some (if 0 < topHeight ctx then .seq (.call (fnCode cp ctx1)) .ret else .tailcall (fnCode cp ctx1), ctx)
   | .yield, ctx => some (.yield, ctx)
   | .pcall p, ctx =>
     match compile p [⟨.root, 0⟩] with
